@@ -18,6 +18,7 @@ def main(argv):
     mod = engine.import_prop(prop)
     ctx = engine.Ctx(prop, tier, seed, shard, nshards, tmp=os.environ.get('XV_TMP'),
                      replaying=bool(replay))
+    ctx.classifier = getattr(mod, 'classify', None)
     try:
         if replay:
             rec = json.load(open(replay))
